@@ -22,3 +22,10 @@ package types
 //@   property C19 C20
 //@   trusted generated code
 //@   modifies dAtA[*]
+
+// Clone returns a fresh deep copy (generated CloneVT; maps and slices are copied)
+//@ func Stat.Clone
+//@   property C01 C05
+//@   trusted generated code (CloneVT)
+//@   ensures copy: s != nil ==> result != nil && fresh(result) && result.Path == s.Path && result.Mode == s.Mode && result.Uid == s.Uid && result.Gid == s.Gid && result.Size == s.Size && result.ModTime == s.ModTime && result.Linkname == s.Linkname && result.Devmajor == s.Devmajor && result.Devminor == s.Devminor
+//@   ensures nilcopy: s == nil ==> result == nil
